@@ -59,6 +59,16 @@ def gen_program(rnd):
         files.append(apm.SrcFile(f"f{i}.mac", stmts))
     kind = rnd.choice(["none", "const", "diff", "diff", "diff2", "viasym", "shiftdiv", "self", "selfnonlin", "second", "dotlead", "dotlead-diff"])
     K = rnd.choice([0, 0o1000, 0o2000, 0o40000, 0o100000, 0o400, 0o157000])
+    if rnd.random() < 0.15:
+        # odd bases: only byte-sized content is meaningful there
+        K += 1
+        for f in files:
+            f.stmts = [s for s in f.stmts if s.k not in ("insn", "wordlist", "data") and not (s.k == "simple")]
+            f.stmts = [s for s in f.stmts if not (s.k == "blk" and s.d == ".align")]
+            for s in list(f.stmts):
+                if s.k == "nop" and rnd.random() < 0.5:
+                    f.stmts.insert(f.stmts.index(s) + 1, apm.data(".byte", apm.num(rnd.randrange(256))))
+        parity_dep = False
     tag = kind
 
     def diff():
@@ -137,8 +147,11 @@ def gen_program(rnd):
                 skip_tag = f"skip|{'back' if back else 'fwd'}|{how}|{n}"
                 break
     # probes: every label value
-    files[-1].stmts.append(apm.simple(".even"))
-    files[-1].stmts.append(apm.data(".word", *[("sym", l) for l in labels[:12]]))
+    if K % 2 == 0:
+        files[-1].stmts.append(apm.simple(".even"))
+        files[-1].stmts.append(apm.data(".word", *[("sym", l) for l in labels[:12]]))
+    else:
+        files[-1].stmts.append(apm.data(".byte", *[("bin", "&", ("sym", l), apm.num(0o377)) for l in labels[:12]]))
     return apm.Program(files), f"{tag}|{'parity' if parity_dep else 'plain'}", skip_tag, kind, parity_dep
 
 
